@@ -9,6 +9,11 @@ use crate::report::{fnv, Ctx, Report};
 use rand::{seq::SliceRandom, Rng};
 use serde_json::{json, Value};
 
+/// The judged search: depth 4 with an explicit generous time limit. A bare `go depth 4` also carries the
+/// engine's default 4 s limit, which a loaded machine can use up while the 1 GiB memory is being allocated
+/// (observed in a thorough run: depth 1 finished after 4052 ms and the search was stopped there).
+pub const JUDGED_GO: &str = "depth 4 movetime 120000";
+
 pub struct Case {
     pub m: Pos,
     pub k: OMove,
@@ -95,6 +100,24 @@ pub fn history(rng: &mut gen::R, c: &Case, tb: &Tablebases) -> Vec<Cmd> {
             s.push(Cmd::NewGame);
         }
     }
+    // games without any search between two ucinewgame commands: nothing at all, or only book answers
+    match rng.gen_range(0..5) {
+        0 => s.push(Cmd::NewGame),
+        1 => {
+            s.push(Cmd::NewGame);
+            s.push(Cmd::Position { fen: None, moves: vec![] });
+            s.push(Cmd::Go { spec: "depth 2".into(), wait: true });
+            if rng.gen_bool(0.5) {
+                s.push(Cmd::Position { fen: None, moves: vec!["e2e4".into(), "e7e5".into()] });
+                s.push(Cmd::Go { spec: String::new(), wait: true });
+            }
+        }
+        2 => {
+            s.push(Cmd::NewGame);
+            s.push(Cmd::IsReady);
+        }
+        _ => {}
+    }
     let _ = tb;
     s.push(Cmd::NewGame);
     // the new game may begin with commands that do not search: a book answer, isready, a stray stop
@@ -109,13 +132,13 @@ pub fn history(rng: &mut gen::R, c: &Case, tb: &Tablebases) -> Vec<Cmd> {
         _ => {}
     }
     s.push(Cmd::Position { fen: Some(c.m.fen()), moves: vec![] });
-    s.push(Cmd::Go { spec: "depth 4".into(), wait: true });
+    s.push(Cmd::Go { spec: JUDGED_GO.into(), wait: true });
     s.push(Cmd::Quit);
     s
 }
 
 pub fn run_case(bin: &str, c: &Case, script: &[Cmd], rep: &mut Report) -> bool {
-    let fresh_script = vec![Cmd::Uci, Cmd::Position { fen: Some(c.m.fen()), moves: vec![] }, Cmd::Go { spec: "depth 4".into(), wait: true }, Cmd::Quit];
+    let fresh_script = vec![Cmd::Uci, Cmd::Position { fen: Some(c.m.fen()), moves: vec![] }, Cmd::Go { spec: JUDGED_GO.into(), wait: true }, Cmd::Quit];
     let key = Pos::lan(&c.k);
     // precondition in a fresh process; if it fails the case belongs to C06/C07
     match final_answer(bin, &fresh_script) {
